@@ -51,6 +51,8 @@ Act(e) ==
     [] e.a = "CancelRunningSelect"  -> CancelRunningSelect(x[1], x[2])
     [] e.a = "OrphanSelect"         -> OrphanSelect(x[1], x[2])
     [] e.a = "UnscheduleCall"       -> UnscheduleCall(x[1], x[2], x[3])
+    [] e.a = "FailFastSelect"   -> FailFastSelect(x[1])
+    [] e.a = "FailFastCall"     -> FailFastCall(x[1])
     [] e.a = "Activate"         -> Activate(x[1])
     [] e.a = "Deactivate"       -> Deactivate(x[1], x[2])
     [] e.a = "Heartbeat"        -> Heartbeat(x[1], x[2], x[3])
